@@ -48,7 +48,7 @@ META = {
                 assumptions=["the optimal-ate Miller loop for BLS12 curves followed by the final exponentiation is a bilinear, non-degenerate pairing of order r (literature) -- bilinearity e(aP,bQ) = e(P,Q)^(ab) and non-degeneracy are consequences of THAT, not decided here",
                              "line values are non-zero and multiplicatively generic (exponent-vector view of F_q12^*); factors in F_q2 (indeed F_q6) are killed by the final exponentiation because (q^6-1) divides the exponent",
                              "tower operations act on discrete logs as stated (C04); Jacobian relations mean the group law (C05)",
-                             "equality of pairing(generators) with the exported constant is not decided by a contract (it is a single concrete evaluation; the pinned suite's generator/bilinearity tests cover it)"]),
+                             "the exported constant generator_pairing equals the definition-level reference pairing of the published generators (contracts/pairing_ref.py: untwisted Q in E(F_q12), affine chord-and-tangent Miller loop, plain exponentiation by 3(q^12-1)/r; tools/tower_ref.py arithmetic), which is not 1 and has r-th power 1; that the library's pairing() on the generators returns this value follows from the refinement units, it is not evaluated inside a contract"]),
     "C08": dict(level="proof", assumptions=["schedule view: step functions uninterpreted, accumulator = exponent vector over formal line values (equal vectors <=> same multiset of line evaluations with the same powers)",
                                             "list lengths are enumerated up to 2 plain + 2 prepared pairs (quick) / 3 + 3 (thorough) with every identity pattern: BOUNDED in the list length (reported as bounded obligations); the single-pair and prepare obligations are unbounded (constant trip count executed exactly)",
                                             "final_exponentiation is a homomorphism (exponent view, C01)"]),
